@@ -54,7 +54,7 @@ def run(ctx):
     sim = sim[:ctx.pick(300, 3000)]
     hs += sim
     if ctx.quick:
-        hs = hs[:n_ex:6] + sim  # a sixth of the exhaustive set (all of it in thorough)
+        hs = hs[:n_ex:10] + sim  # a tenth of the exhaustive set (all of it in thorough)
     ctx.log("histories: %d exhaustive (len %d), %d simulated (len 14); replaying %d"
             % (n_ex, ctx.pick(4, 5), len(sim), len(hs)))
     with open(ctx.path("hist.json"), "w") as fh:
